@@ -238,8 +238,24 @@ def run_tlc(ctx, name, spec, env_override=None, allow_spec_violation=False):
     if verdict in ("error", "spec-violation") or not completed:
         tail = "\n".join(l for l in out.splitlines() if not re.match(r"^(Semantic|Linting|Parsing)", l))[-3000:]
         raise ToolError("TLC job %s: %s (exit %d)\n%s" % (name, verdict, p.returncode, tail))
+    # an automaton obtained by behavioural merging that does not predict the real object on the
+    # harness's validation walks is not a faithful model: whatever was found on it is inconclusive
+    unfaithful = []
+    for k, v in spec.get("env", {}).items():
+        if isinstance(v, str) and v.startswith("art:g_"):
+            try:
+                with open(ctx.art(v[4:])) as f:
+                    if json.loads(f.readline()).get("faithful") is False:
+                        unfaithful.append(v[4:])
+            except Exception:
+                pass
+    if unfaithful:
+        for r in recs:
+            r["was_kind"] = r.get("kind")
+            r["kind"] = "unbounded"
+            r["unfaithful_graphs"] = unfaithful
     return {"job": name, "verdict": verdict, "exit": p.returncode, "records": recs, "notes": notes,
-            "stats": st, "wall_s": round(wall, 2), "module": spec["module"]}
+            "stats": st, "wall_s": round(wall, 2), "module": spec["module"], "unfaithful_graphs": unfaithful}
 
 
 def model_table(ctx):
@@ -423,12 +439,17 @@ def run_selfreplay(ctx, name, spec):
                        stdout=subprocess.PIPE, stderr=subprocess.PIPE, text=True, timeout=spec.get("timeout", 3600))
     if p.returncode != 0:
         raise ToolError("pkv replay-table (self) %s failed (%d): %s" % (spec["graph"], p.returncode, p.stderr[-1500:]))
+    with open(ctx.art(spec["graph"])) as f:
+        first = json.loads(f.readline())
+    merged = first.get("idmode") == "behaviour"
     recs, notes = [], []
     for line in p.stdout.splitlines():
         if line.startswith("@@M "):
             r = json.loads(line[4:])
             r["prop"] = spec["prop"]
-            r["kind"] = "self-replay"
+            # on an automaton obtained by behavioural merging a divergence says the merge was imperfect,
+            # not that the property is violated: inconclusive
+            r["kind"] = "unbounded" if merged else "self-replay"
             r["note"] = "the real object diverges from the automaton extracted from it: state not captured by its rendering"
             recs.append(r)
         elif line.startswith("@@S "):
